@@ -340,6 +340,11 @@ def run_case(case, obs):
     # ---- read results back by label ------------------------------------------------
     c1, c2 = b["coords"]
     sv = np.asarray(model.data["singular_values"].sortby("mode").values, dtype=float)
+    # hostile query history first: accessors with the non-default switches must not change later answers
+    # (an in-place normalisation of the stored scores / components would)
+    model.scores(normalized=True)
+    model.components(normalized=False)
+    model.scores(normalized=True)
     s1, s2 = model.scores()
     p1, p2 = model.components()
     S1 = xu.sample_matrix(s1.sortby("mode"), ["time"], c1)
